@@ -111,3 +111,25 @@ def fromhex(s):
 def use_lemma(lemma_fn, s):
     """proof hint: the named lemma (proved by its own obligations) holds for sequence s"""
     return True
+
+
+# ---- ghost state (proof-only; no run-time meaning) -------------------------------------------
+def ghost_get(name):
+    return None
+
+
+def ghost_set(name, value):
+    return True
+
+
+def seq_uncons(s):
+    """(first element, rest) of a non-empty sequence; the proof must show it is non-empty"""
+    return s[0], s[1:]
+
+
+def seq_snoc(s, x):
+    return list(s) + [x]
+
+
+def seq_empty(like):
+    return []
